@@ -138,6 +138,8 @@ class Engine(w_fsa.Engine):
     def gen_config(self, rng, prop, tier):
         cfg = super().gen_config(rng, "C09", tier)
         cfg["engine"] = NAME
+        if cfg["alpha"] == "int":
+            cfg["alpha"] = "single"     # labels are words in the generators here
         cfg["steps"] = rng.choice([6, 10, 16, 25, 40, 60] if tier == "thorough" else [6, 10, 16, 25, 40])
         cfg["i3"] = False
         cfg["i1"] = False
@@ -511,9 +513,6 @@ class Engine(w_fsa.Engine):
         mode, state, edge_words = op["mode"], op["state"], bool(op["edge_words"])
         if not self._labels_ok(rh, h, edge_words):
             return "skipped:labels"
-        labs = h.labels()
-        if labs and len({len(l) for l in labs}) != 1:
-            return "skipped:labels-not-uniform"
         if mode == "default":
             if not (h.S and h.S[0] in h.V):
                 return "skipped:no-default-start"
@@ -632,16 +631,25 @@ class Engine(w_fsa.Engine):
                 return ("E.words", "returned words are not the accepted words, once per accepting path: "
                         "missing %r extra %r" % (sorted((want_words - got_words).elements())[:4],
                                                  sorted((got_words - want_words).elements())[:4]))
-            # matrix i must be the image of word i; words decode uniquely into label paths
-            by_word = {}
+            # matrix i must be the image of word i.  Two different label paths may spell the same word
+            # (labels of different lengths: a.bc = ab.c), so per word the multiset of returned matrices
+            # must equal the multiset of the images of the paths spelling it
+            want_by = {}
             for p in want_paths:
-                by_word.setdefault("".join(p), p)
+                want_by.setdefault("".join(p), Counter())[_key(self._image(rh, p, edge_words))] += 1
+            got_by = {}
             for i, w in enumerate(words):
-                img = self._image(rh, by_word[w], edge_words)
-                want = np.array(img.tolist(), dtype=np.complex128)
-                if not np.all(np.abs(arr[i] - want) <= tol):
-                    return ("E.image", "matrix %d is not the image of word %r: got %s want %s" % (
-                        i, w, np.round(arr[i], 6).tolist(), img.tolist()))
+                r = np.round(arr[i].real) + 1j * np.round(arr[i].imag)
+                if not np.all(np.abs(arr[i] - r) <= tol):
+                    some = next(iter(want_by[w]))
+                    return ("E.image", "matrix %d (word %r) is not the image of the word: got %s" % (
+                        i, w, np.round(arr[i], 6).tolist()))
+                got_by.setdefault(w, Counter())[_key(r)] += 1
+            for w in want_by:
+                if got_by.get(w) != want_by[w]:
+                    p0 = next(p for p in want_paths if "".join(p) == w)
+                    return ("E.image", "the matrices returned for word %r are not the images of the accepting "
+                            "paths spelling it: e.g. expected %s" % (w, self._image(rh, p0, edge_words).tolist()))
             return None
         if k != len(want_paths):
             return ("E.mats", "%d matrices returned, %d accepting paths" % (k, len(want_paths)))
